@@ -22,6 +22,7 @@ EXPLANATION = EXPLANATION + " Added while testing against seeded changes: " + EX
 EXPLANATION = EXPLANATION + ' Rounds 12-13: (R14) client UDP handlers register the sender of every received datagram before building its frame (no frame under an id left over from an earlier datagram); (R15) nothing sets SO_LINGER on a socket of the tunnel path; R9 accepts the receive buffer cut by slicing to the received length.'
 EXPLANATION = EXPLANATION + " Rounds 14-15 and the value sweep: (R16) a datagram of a flow the server has no forwarder for always starts one; R15 also forbids hyper's pipeline_flush on upgrade-serving connections; R5 / R9 / R1 are exact (the target, port, flow id, payload length and requested port are passed on as they are at every hop: no arithmetic, mask or narrowing cast)."
 EXPLANATION = EXPLANATION + ' Rounds 16-17: (R17) a client UDP handler skips the queue send only on the failing outcome of its receive / parse step; (R18) MAX_UDP_PACKET_SIZE >= 65535; (R19) the handler of every configured remote is spawned; (R20) the forwarders do not slice the peer-supplied target host by position.'
+EXPLANATION = EXPLANATION + ' Round 18: R2 also requires a UDP client entry to own its reply socket (Arc, not Weak).'
 ASSUMPTIONS = ["byte transparency of the bridge itself is C13 / C02; tokio sockets deliver what they are given"]
 NOT_DECIDED = "byte transparency, half-close behaviour, close/refusal propagation and concurrency of clients at run time"
 QUICK_CONFIGS = ["default"]
